@@ -361,9 +361,12 @@ type BytesV struct {
 	Param    *ssa.Parameter
 	Pending  ssa.Instruction // the content is the bytes read by this call iff the call returned a nil error
 	PendSrc  string
-	LenMin   *MinLen  // when the length is Const + Coef·|Min(v)| (v a big integer whose minimal encoding is involved)
-	WinOf    *Obj     // the value is a window into this buffer object (writes through it change the buffer)
-	WinLo    *IntV    // start of the window (the window extends to the end of the buffer)
+	LenMin   *MinLen // when the length is Const + Coef·|Min(v)| (v a big integer whose minimal encoding is involved)
+	WinOf    *Obj    // the value is a window into this buffer object (writes through it change the buffer)
+	WinLo    *IntV   // start of the window (the window extends to the end of the buffer)
+	WinConst bool    // the window is bytes [WinOff, WinOff+WinN) of the buffer WinOf: its content is read from
+	WinOff   int64   // the buffer when it is needed (resolveBytes), never from a snapshot taken when it was sliced
+	WinN     int64
 	LenSym   string   // the length is that of this container (see IntV.LenOf)
 	CopyOf   *StrByte // inside a loop: the only store so far was buf[Idx] = S[Idx]
 }
@@ -447,10 +450,10 @@ type PtrV struct {
 
 // ResV is a handle on an external resource the word-list generator works with.
 type ResV struct {
-	Kind  string // "http.Response", "http.Body", "os.File", "bufio.Writer"
+	Kind  string // "http.Response", "http.Body", "os.File", "bufio.Writer", "bytes.Buffer"
 	A     AV     // URL (response, body), path (file), underlying writer (bufio)
 	Flags AV     // open flags (file); nil for os.Create
-	O     *Obj   // bufio: cell holding "has unflushed data"
+	O     *Obj   // bufio: cell holding "has unflushed data"; bytes.Buffer: cell holding what was written ("", "rendered", "other")
 	Site  ssa.Instruction
 }
 
@@ -460,6 +463,15 @@ func (r ResV) String() string {
 	}
 	return fmt.Sprintf("%s(%v)", r.Kind, r.A)
 }
+
+// RenderedV is the content of a bytes.Buffer into which exactly one template Execute has
+// written (and nothing else): Buf is the buffer's cell, Exec the Execute call.
+type RenderedV struct {
+	Buf  *Obj
+	Exec ssa.Instruction
+}
+
+func (r RenderedV) String() string { return "rendered template" }
 
 type ElemRef struct {
 	Base AV // ListV, TokensV, PtrV(vec/arr obj), PtrV(G) …
